@@ -338,9 +338,9 @@ def fd_cases(draw):
     cfg = draw(cases(kinds=("gauss", "quartic", "logreg", "banana", "mix")))
     cfg["hmc"]["grad"] = False
     cfg["zero_mode"] = [draw(st.sampled_from(["generic", "generic", "zero", "tiny", "neg"])) for _ in range(cfg["d"])]
-    # "at every point": also where the density sits far from zero compared with its own width (up to 1e8 widths)
+    # "at every point": also where the density sits far from zero compared with its own width (up to 1e10 widths: a density 20000 float spacings wide)
     if cfg["target"]["kind"] == "gauss" and draw(st.integers(0, 2)) == 0:
-        k = draw(st.sampled_from([1e2, 1e3, 1e4, -1e3, -1e4, 1e6, 1e7, 1e8, -1e8]))    # (a timestamp-like parameter: 1.7e9 +- 1)
+        k = draw(st.sampled_from([1e2, 1e3, 1e4, -1e3, -1e4, 1e6, 1e7, 1e8, -1e8, 1e10, -1e10]))    # (a time stamp known to 0.1 s: 1.7e9 +- 0.1)
         L = np.array(cfg["target"]["chol"], dtype=float).reshape(cfg["d"], cfg["d"])
         sd = np.sqrt(np.diag(L @ L.T))
         cfg["target"]["mean"] = [float(m + k * v) for m, v in zip(cfg["target"]["mean"], sd)]
